@@ -156,10 +156,10 @@ def instances(tier):
             if sum(inp) > 2 and which == "hafnian" and tier == "quick":
                 continue
             out.append(("lossy", {"d": d, "inp": list(inp), "which": which}))
+    out.append(("lossy", {"d": 2, "inp": [1, 1], "which": "ryser1", "full": True}))      # non-real T^dagger T (known finding)
     if tier == "thorough":
         out.append(("lossy", {"d": 2, "inp": [1, 0], "which": "hafnian", "full": True}))
         out.append(("lossy", {"d": 2, "inp": [1, 1], "which": "hafnian", "full": True}))
-        out.append(("lossy", {"d": 2, "inp": [1, 1], "which": "ryser1", "full": True}))
     for d, inp, gates in [(2, (1, 1), [["B", [0, 1]]]), (2, (2, 0), [["B", [1, 0]], ["P", [0]]]), (3, (1, 1, 0), []), (2, (2, 1), [])] + ([(3, (1, 1, 1), []), (3, (2, 0, 1), [["B", [2, 0]], ["B", [0, 1]]])] if tier == "thorough" else []):
         out.append(("ideal", {"d": d, "inp": list(inp), "gates": gates}))
     for d, inp in [(2, (1, 1)), (2, (2, 0))] + ([(2, (2, 1)), (3, (1, 1, 0))] if tier == "thorough" else []):
